@@ -5,6 +5,7 @@
 //!   vharness <slice> --seed N --n CASES --len MAXLEN --out trace.txt [--shard i/m] [--bfs DEPTH]
 mod alloc;
 mod comp;
+mod ctor;
 mod gen;
 mod lfu;
 mod lru;
@@ -388,6 +389,7 @@ pub fn mk_subject(kind: u32, cfg: &[i128], meta: &std::collections::HashMap<Stri
         5 => Box::new(lfu::mk_tiny(m("size") as usize, m("samples") as usize, FPS[m("fpi") as usize])),
         6 => Box::new(lfu::mk_sampled(cfg[0] as i64, cfg[1] as usize, m("ctor"))),
         7 => Box::new(putres::PutResSubj),
+        8 => Box::new(ctor::CtorSubj),
         _ => panic!("unknown kind"),
     }
 }
@@ -476,6 +478,27 @@ fn slice_replay(a: &Args, t: &mut Trace) {
     }
 }
 
+/// constructor grid (first case, shard 0) and random constructor calls
+fn slice_ctor(a: &Args, t: &mut Trace) {
+    if a.shard.0 == 0 {
+        let g = ctor::grid();
+        for (ci, chunk) in g.chunks(400).enumerate() {
+            let ops = chunk.to_vec();
+            let id = format!("ctor-grid-{}", ci);
+            run_case(t, &id, 8, &[], "", &|| Box::new(ctor::CtorSubj), &mut scripted(ops), &tag);
+        }
+    }
+    for i in 0..a.n {
+        if i % a.shard.1 != a.shard.0 {
+            continue;
+        }
+        let mut r = rng_for(a.seed, i + 8_000_000);
+        let len = a.len as usize;
+        let id = format!("ctor-s{}-i{}", a.seed, i);
+        run_case(t, &id, 8, &[], "", &|| Box::new(ctor::CtorSubj), &mut |step, _| if step >= len { None } else { Some(ctor::random_op(&mut r)) }, &tag);
+    }
+}
+
 fn slice_putres(a: &Args, t: &mut Trace) {
     for i in 0..a.n {
         if i % a.shard.1 != a.shard.0 {
@@ -548,6 +571,7 @@ fn main() {
         "sampled" => slice_lfu(&a, &mut t, 6),
         "replay" => slice_replay(&a, &mut t),
         "putres" => slice_putres(&a, &mut t),
+        "ctor" => slice_ctor(&a, &mut t),
         "lru_bfs" => slice_lru_bfs(&a, &mut t),
         s => {
             eprintln!("unknown slice {}", s);
